@@ -521,3 +521,268 @@ Example C09_predict_scores_are_the_objective_scores_sat :
   (exists M, lr_fit ROps ex_L0 ex_bt 1 [[1]; [2]; [-1]] [0; 1; 2] (1/2) = Some M) /\
   0 <= bt_c1 ex_bt /\ 0 < bt_plo ex_bt /\ (0 < lb_m ex_L0)%nat /\ length [3 : R] = 1%nat.
 Proof. split; [exact (proj1 ex_fit3_returns)|]. split; [cbn; lra|]. split; [cbn; lra|]. split; [cbn; lia | reflexivity]. Qed.
+
+(* ================= ROUNDING: predict in binary64 (FOps = Coq primitive floats, the instance the correspondence
+   executes against the Rust code) against predict in exact arithmetic (ROps) on the real values of the same
+   stored coefficients, intercepts, class values and query rows.  Fitting is iterative: no rounding theorem.
+   FR x = real value of a float, u64 = 2^-53, eta64 = 2^-1075 (Base/FloatError.v).  The only no-overflow
+   hypothesis is that the computed score is finite. ================= *)
+From Coq Require Import Floats.
+From SC Require Import Base.FloatUtil Base.FloatError C09.ProofsFloat C09.ProofsFloatEx.
+
+(* one score = vdot row c + b: p products and p additions from 0 (the first exact), the intercept is added
+   LAST (one more rounding), as in `y_hat_i + intercept` / `y_hat.get(r,c) + intercept.get(c,0)` *)
+Theorem C09_score_float_error :
+  forall (row c : list PrimFloat.float) (b : PrimFloat.float),
+  PrimFloat.is_finite (PrimFloat.add (vdot FOps row c) b) = true ->
+  let p := Nat.min (length row) (length c) in
+  let A := vdot ROps (map (fun a => Rabs (FR a)) row) (map (fun a => Rabs (FR a)) c) in
+  List.Forall (fun a => PrimFloat.is_finite a = true) (firstn p row) /\
+  List.Forall (fun a => PrimFloat.is_finite a = true) (firstn p c) /\
+  PrimFloat.is_finite b = true /\
+  Rabs (FR (PrimFloat.add (vdot FOps row c) b) - (vdot ROps (map FR row) (map FR c) + FR b)) <=
+    ((1 + u64) ^ (p + 1) - 1) * (A + Rabs (FR b) + INR p * eta64) + INR p * eta64.
+Proof. exact score_float_error. Qed.
+
+(* all class scores of a stored model: entry j of the binary64 score row is within the bound of class j of
+   entry j of the exact score row (lr_scores, the list C09_predict_is_argmax speaks about) *)
+Theorem C09_scores_float_error :
+  forall (M : lr_model (T := PrimFloat.float)) (row : list PrimFloat.float),
+  let MR := mkLr (map (map FR) (lr_coef M)) (map FR (lr_intercept M)) (map FR (lr_classes M)) (lr_k M) in
+  let S := map2 (fun c b => PrimFloat.add (vdot FOps row c) b) (lr_coef M) (lr_intercept M) in
+  let E := map2 (fun c b =>
+                   let p := Nat.min (length row) (length c) in
+                   let A := vdot ROps (map (fun a => Rabs (FR a)) row) (map (fun a => Rabs (FR a)) c) in
+                   ((1 + u64) ^ (p + 1) - 1) * (A + Rabs (FR b) + INR p * eta64) + INR p * eta64)
+                (lr_coef M) (lr_intercept M) in
+  List.Forall (fun s => PrimFloat.is_finite s = true) S ->
+  length (lr_scores MR (map FR row)) = length S /\ length E = length S /\
+  forall j, (j < length S)%nat ->
+    0 <= nth j E 0 /\ Rabs (FR (nth j S 0%float) - nth j (lr_scores MR (map FR row)) 0) <= nth j E 0.
+Proof. exact scores_float_error. Qed.
+
+(* two classes, the part that needs nothing about exp: an exact score larger in magnitude than its bound
+   has the sign of the computed score *)
+Theorem C09_score_sign_float_robust :
+  forall (row c : list PrimFloat.float) (b : PrimFloat.float),
+  let s := PrimFloat.add (vdot FOps row c) b in
+  let sR := vdot ROps (map FR row) (map FR c) + FR b in
+  let p := Nat.min (length row) (length c) in
+  let A := vdot ROps (map (fun a => Rabs (FR a)) row) (map (fun a => Rabs (FR a)) c) in
+  PrimFloat.is_finite s = true ->
+  ((1 + u64) ^ (p + 1) - 1) * (A + Rabs (FR b) + INR p * eta64) + INR p * eta64 < Rabs sR ->
+  PrimFloat.ltb 0%float s = Rltb 0 sR /\ (0 < sR -> 0 < FR s) /\ (sR < 0 -> FR s < 0).
+Proof. exact score_sign_float_robust. Qed.
+
+(* two classes, the label.  The code does not test the sign of the score but `sigmoid(score) > 0.5`, and
+   sigmoid calls exp for |score| <= 40.  Hypothesis (S): on the COMPUTED score s the binary64 sigmoid is on
+   the correct side of 1/2, i.e. (0.5 < sigmoid s) = (0 < s) -- a closed boolean fact about the exp routine
+   at one argument (Base/Elem.v in the binary64 instance, libm in Rust; no accuracy theorem exists for either).
+   Under (S) and the margin, the binary64 prediction is the exact-arithmetic one: same index, same ORIGINAL
+   label value. (S) cannot be dropped: C09_predict_binary_float_needs_sigmoid_side_refuted. *)
+Theorem C09_predict_binary_float_robust :
+  forall (M : lr_model (T := PrimFloat.float)) (row : list PrimFloat.float),
+  lr_k M = 2%nat ->
+  let MR := mkLr (map (map FR) (lr_coef M)) (map FR (lr_intercept M)) (map FR (lr_classes M)) (lr_k M) in
+  let c := nth 0 (lr_coef M) [] in
+  let b := nth 0 (lr_intercept M) 0%float in
+  let s := PrimFloat.add (vdot FOps row c) b in
+  let sR := vdot ROps (map FR row) (map FR c) + FR b in
+  let p := Nat.min (length row) (length c) in
+  let A := vdot ROps (map (fun a => Rabs (FR a)) row) (map (fun a => Rabs (FR a)) c) in
+  PrimFloat.is_finite s = true ->
+  PrimFloat.ltb (half FOps) (sigmoid FOps s) = PrimFloat.ltb 0%float s ->
+  ((1 + u64) ^ (p + 1) - 1) * (A + Rabs (FR b) + INR p * eta64) + INR p * eta64 < Rabs sR ->
+  predict_index FOps M row = predict_index ROps MR (map FR row) /\
+  predict_index FOps M row = (if Rlt_dec 0 sR then 1%nat else 0%nat) /\
+  FR (nth (predict_index FOps M row) (lr_classes M) 0%float) =
+    nth (predict_index ROps MR (map FR row)) (lr_classes MR) 0.
+Proof. exact predict_binary_float_robust. Qed.
+
+(* (S) holds unconditionally beyond the cut-offs of sigmoid, where exp is not called *)
+Theorem C09_sigmoid_side_beyond_cutoffs :
+  forall s : PrimFloat.float, PrimFloat.is_finite s = true -> 40 < Rabs (FR s) ->
+  PrimFloat.ltb (half FOps) (sigmoid FOps s) = PrimFloat.ltb 0%float s.
+Proof. exact sigmoid_sign_ok_large. Qed.
+
+(* every row of a query matrix *)
+Theorem C09_predict_binary_rows_float_robust :
+  forall (M : lr_model (T := PrimFloat.float)) (X : list (list PrimFloat.float)),
+  lr_k M = 2%nat ->
+  let MR := mkLr (map (map FR) (lr_coef M)) (map FR (lr_intercept M)) (map FR (lr_classes M)) (lr_k M) in
+  let c := nth 0 (lr_coef M) [] in
+  let b := nth 0 (lr_intercept M) 0%float in
+  List.Forall (fun row =>
+            let s := PrimFloat.add (vdot FOps row c) b in
+            let sR := vdot ROps (map FR row) (map FR c) + FR b in
+            let p := Nat.min (length row) (length c) in
+            let A := vdot ROps (map (fun a => Rabs (FR a)) row) (map (fun a => Rabs (FR a)) c) in
+            PrimFloat.is_finite s = true /\
+            PrimFloat.ltb (half FOps) (sigmoid FOps s) = PrimFloat.ltb 0%float s /\
+            ((1 + u64) ^ (p + 1) - 1) * (A + Rabs (FR b) + INR p * eta64) + INR p * eta64 < Rabs sR) X ->
+  map FR (lr_predict FOps M X) = lr_predict ROps MR (map (map FR) X).
+Proof. exact predict_binary_rows_float_robust. Qed.
+
+(* satisfiable on inexact data: weights (0.3, -0.1), intercept 0.1, labels 3 and 7, row (0.1, 0.2): the score
+   is finite, (S) holds for the binary64 instance's exp, the bound is below 2^-50 and below the exact score
+   (about 0.11), and the binary64 label is 7 *)
+Example C09_predict_binary_float_robust_instance :
+  let M := mkLr [[0x1.3333333333333p-2; -0x1.999999999999ap-4]%float] [0x1.999999999999ap-4%float] [3; 7]%float 2 in
+  let row := [0x1.999999999999ap-4; 0x1.999999999999ap-3]%float in
+  let c := nth 0 (lr_coef M) [] in
+  let b := nth 0 (lr_intercept M) 0%float in
+  let s := PrimFloat.add (vdot FOps row c) b in
+  let sR := vdot ROps (map FR row) (map FR c) + FR b in
+  let p := Nat.min (length row) (length c) in
+  let A := vdot ROps (map (fun a => Rabs (FR a)) row) (map (fun a => Rabs (FR a)) c) in
+  let bound := ((1 + u64) ^ (p + 1) - 1) * (A + Rabs (FR b) + INR p * eta64) + INR p * eta64 in
+  lr_k M = 2%nat /\ PrimFloat.is_finite s = true /\
+  PrimFloat.ltb (half FOps) (sigmoid FOps s) = PrimFloat.ltb 0%float s /\
+  bound < Rabs sR /\ bound <= / 2 ^ 50 /\ 0 < sR /\
+  nth (predict_index FOps M row) (lr_classes M) 0%float = 7%float.
+Proof. exact ex_binary_robust. Qed.
+
+(* THE SCORE MARGIN ALONE DOES NOT DECIDE THE TWO-CLASS LABEL IN BINARY64 (a finding about the code's
+   `sigmoid(score) > 0.5`): weight 1, intercept 0, row (2^-70).  Every operation is exact: the computed score
+   IS the exact score 2^-70 > 0, far above its error bound.  But exp(-2^-70) rounds to 1, the binary64 sigmoid is
+   exactly 0.5, `0.5 > 0.5` is false: the binary64 model answers class 0, the exact-arithmetic model class 1.
+   (With a correctly rounded exp the same happens for every score in (0, 1.5 * 2^-53).) *)
+Theorem C09_predict_binary_float_needs_sigmoid_side_refuted :
+  let M := mkLr [[1%float]] [0%float] [0; 1]%float 2 in
+  let MR := mkLr (map (map FR) (lr_coef M)) (map FR (lr_intercept M)) (map FR (lr_classes M)) (lr_k M) in
+  let row := [0x1p-70%float] in
+  let c := nth 0 (lr_coef M) [] in
+  let b := nth 0 (lr_intercept M) 0%float in
+  let s := PrimFloat.add (vdot FOps row c) b in
+  let sR := vdot ROps (map FR row) (map FR c) + FR b in
+  let p := Nat.min (length row) (length c) in
+  let A := vdot ROps (map (fun a => Rabs (FR a)) row) (map (fun a => Rabs (FR a)) c) in
+  lr_k M = 2%nat /\ PrimFloat.is_finite s = true /\ FR s = sR /\ sR = / 2 ^ 70 /\
+  ((1 + u64) ^ (p + 1) - 1) * (A + Rabs (FR b) + INR p * eta64) + INR p * eta64 < Rabs sR /\
+  sigmoid FOps s = 0x1p-1%float /\
+  predict_index FOps M row = 0%nat /\ predict_index ROps MR (map FR row) = 1%nat.
+Proof. exact ex_binary_tiny_score. Qed.
+
+(* k <> 2 classes: if class i's exact score exceeds every other exact score by more than the sum of the two
+   classes' bounds, the binary64 first-arg-max is i, and so is the exact-arithmetic one: same ORIGINAL label *)
+Theorem C09_predict_multiclass_float_robust :
+  forall (M : lr_model (T := PrimFloat.float)) (row : list PrimFloat.float) (i : nat),
+  lr_k M <> 2%nat ->
+  let MR := mkLr (map (map FR) (lr_coef M)) (map FR (lr_intercept M)) (map FR (lr_classes M)) (lr_k M) in
+  let S := map2 (fun c b => PrimFloat.add (vdot FOps row c) b) (lr_coef M) (lr_intercept M) in
+  let SR := lr_scores MR (map FR row) in
+  let E := map2 (fun c b =>
+                   let p := Nat.min (length row) (length c) in
+                   let A := vdot ROps (map (fun a => Rabs (FR a)) row) (map (fun a => Rabs (FR a)) c) in
+                   ((1 + u64) ^ (p + 1) - 1) * (A + Rabs (FR b) + INR p * eta64) + INR p * eta64)
+                (lr_coef M) (lr_intercept M) in
+  List.Forall (fun s => PrimFloat.is_finite s = true) S ->
+  (i < length S)%nat ->
+  (forall j, (j < length S)%nat -> j <> i -> nth j SR 0 + nth j E 0 + nth i E 0 < nth i SR 0) ->
+  predict_index FOps M row = i /\ predict_index ROps MR (map FR row) = i /\
+  FR (nth (predict_index FOps M row) (lr_classes M) 0%float) =
+    nth (predict_index ROps MR (map FR row)) (lr_classes MR) 0.
+Proof.
+  intros M row i Hk MR S SR E HF Hi Hm.
+  exact (predict_multiclass_float_robust M row i Hk HF (conj Hi Hm)).
+Qed.
+
+(* every row of a query matrix: predict in binary64 = predict in exact arithmetic, label for label *)
+Theorem C09_predict_multiclass_rows_float_robust :
+  forall (M : lr_model (T := PrimFloat.float)) (X : list (list PrimFloat.float)),
+  lr_k M <> 2%nat ->
+  let MR := mkLr (map (map FR) (lr_coef M)) (map FR (lr_intercept M)) (map FR (lr_classes M)) (lr_k M) in
+  List.Forall (fun row =>
+            let S := map2 (fun c b => PrimFloat.add (vdot FOps row c) b) (lr_coef M) (lr_intercept M) in
+            let SR := lr_scores MR (map FR row) in
+            let E := map2 (fun c b =>
+                             let p := Nat.min (length row) (length c) in
+                             let A := vdot ROps (map (fun a => Rabs (FR a)) row) (map (fun a => Rabs (FR a)) c) in
+                             ((1 + u64) ^ (p + 1) - 1) * (A + Rabs (FR b) + INR p * eta64) + INR p * eta64)
+                          (lr_coef M) (lr_intercept M) in
+            List.Forall (fun s => PrimFloat.is_finite s = true) S /\
+            exists i, (i < length S)%nat /\
+              forall j, (j < length S)%nat -> j <> i -> nth j SR 0 + nth j E 0 + nth i E 0 < nth i SR 0) X ->
+  map FR (lr_predict FOps M X) = lr_predict ROps MR (map (map FR) X).
+Proof. exact predict_multiclass_rows_float_robust. Qed.
+
+(* satisfiable on inexact data: three classes with labels 3, 5, 8, two features, row (0.1, 0.2); exact scores
+   0.11, -0.04, 0.33; every bound is below 2^-50; the binary64 label is 8 *)
+Example C09_predict_multiclass_float_robust_instance :
+  let M := mkLr [[0x1.3333333333333p-2; -0x1.999999999999ap-4]; [0x1.999999999999ap-3; 0x1.6666666666666p-1];
+                 [-0x1p-1; 0x1.999999999999ap-2]]%float
+                [0x1.999999999999ap-4; -0x1.999999999999ap-3; 0x1.3333333333333p-2]%float [3; 5; 8]%float 3 in
+  let MR := mkLr (map (map FR) (lr_coef M)) (map FR (lr_intercept M)) (map FR (lr_classes M)) (lr_k M) in
+  let row := [0x1.999999999999ap-4; 0x1.999999999999ap-3]%float in
+  let S := map2 (fun c b => PrimFloat.add (vdot FOps row c) b) (lr_coef M) (lr_intercept M) in
+  let SR := lr_scores MR (map FR row) in
+  let E := map2 (fun c b =>
+                   let p := Nat.min (length row) (length c) in
+                   let A := vdot ROps (map (fun a => Rabs (FR a)) row) (map (fun a => Rabs (FR a)) c) in
+                   ((1 + u64) ^ (p + 1) - 1) * (A + Rabs (FR b) + INR p * eta64) + INR p * eta64)
+                (lr_coef M) (lr_intercept M) in
+  lr_k M <> 2%nat /\ List.Forall (fun s => PrimFloat.is_finite s = true) S /\
+  ((2 < length S)%nat /\
+   forall j, (j < length S)%nat -> j <> 2%nat -> nth j SR 0 + nth j E 0 + nth 2 E 0 < nth 2 SR 0) /\
+  (forall j, (j < 3)%nat -> nth j E 0 <= / 2 ^ 50) /\
+  lr_predict FOps M [row] = [8%float].
+Proof.
+  destruct ex_multiclass_robust as (H1 & H2 & H3 & H4 & _ & H6).
+  split; [exact H1|]. split; [exact H2|]. split; [exact H3|]. split; [exact H4 | exact H6].
+Qed.
+
+(* THE MARGIN IS NEEDED for k >= 3: row (1,1,1); class 0 has weights 2^53, 1, -2^53 and intercept 0, class 1
+   weights 0 and intercept 0.5, class 2 all zero.  Everything is finite and every product exact; the exact
+   scores are 1, 0.5, 0 (class 0), the computed ones ((0+2^53)+1)-2^53 = 0, 0.5, 0 (2^53+1 is a tie and
+   rounds to even): the binary64 arg-max is class 1 *)
+Theorem C09_predict_multiclass_float_margin_needed_refuted :
+  let M := mkLr [[0x1p+53; 1; -0x1p+53]; [0; 0; 0]; [0; 0; 0]]%float [0; 0x1p-1; 0]%float [0; 1; 2]%float 3 in
+  let MR := mkLr (map (map FR) (lr_coef M)) (map FR (lr_intercept M)) (map FR (lr_classes M)) (lr_k M) in
+  let row := [1; 1; 1]%float in
+  let S := map2 (fun c b => PrimFloat.add (vdot FOps row c) b) (lr_coef M) (lr_intercept M) in
+  lr_k M <> 2%nat /\ List.Forall (fun s => PrimFloat.is_finite s = true) S /\
+  lr_scores MR (map FR row) = [1; / 2; 0] /\ map FR S = [0; / 2; 0] /\
+  predict_index FOps M row = 1%nat /\ predict_index ROps MR (map FR row) = 0%nat.
+Proof. exact ex_multiclass_margin_needed. Qed.
+
+(* WHAT (S) NEEDS FROM exp.  The addition 1 + e and the division 1 / (1 + e) of sigmoid analysed exactly, for ANY
+   binary64 value e handed back by an exp routine (Base/Elem.v or libm): e in [0, 1 - 2^-52] puts the quotient
+   strictly above one half, e in [1, 2^1000] at or below one half. *)
+From SC Require Import C09.ProofsFloatSig.
+Theorem C09_sigmoid_quotient_float :
+  forall e : PrimFloat.float, PrimFloat.is_finite e = true ->
+  let q := PrimFloat.div 1 (PrimFloat.add 1 e) in
+  (0 <= FR e <= 1 - / 2 ^ 52 -> PrimFloat.is_finite q = true /\ / 2 < FR q) /\
+  (1 <= FR e <= 2 ^ 1000 -> PrimFloat.is_finite q = true /\ FR q <= / 2).
+Proof.
+  intros e He q. split; intros H; [exact (recip_above_half e He H) | exact (recip_at_most_half e He H)].
+Qed.
+
+(* hence (S) at a finite score s follows from a condition on the single value e = exp(-s) (nothing is needed
+   beyond the cut-offs |s| > 40): s > 0 needs e <= 1 - 2^-52, s <= 0 needs 1 <= e <= 2^1000 *)
+Theorem C09_sigmoid_side_from_exp :
+  forall s : PrimFloat.float, PrimFloat.is_finite s = true ->
+  let e := oexp FOps (PrimFloat.opp s) in
+  PrimFloat.is_finite e = true ->
+  (0 < FR s -> 0 <= FR e <= 1 - / 2 ^ 52) ->
+  (FR s <= 0 -> 1 <= FR e <= 2 ^ 1000) ->
+  PrimFloat.ltb (half FOps) (sigmoid FOps s) = PrimFloat.ltb 0%float s.
+Proof. intros s Hs e He H1 H2. exact (sigmoid_sign_ok_of_exp s Hs (conj He (conj H1 H2))). Qed.
+
+(* the positive side is sharp: e = 1 - 2^-53 (what a correctly rounded exp returns for s around 2^-53) gives
+   1 + e = 2 (a tie, rounded to even) and a quotient of exactly one half; and the condition holds for the
+   binary64 instance's exp at the score of C09_predict_binary_float_robust_instance and at its opposite *)
+Example C09_sigmoid_side_from_exp_instance :
+  (PrimFloat.div 1 (PrimFloat.add 1 0x1.fffffffffffffp-1) = 0x1p-1%float /\
+   FR 0x1.fffffffffffffp-1%float = 1 - / 2 ^ 53) /\
+  let M := mkLr [[0x1.3333333333333p-2; -0x1.999999999999ap-4]%float] [0x1.999999999999ap-4%float] [3; 7]%float 2 in
+  let row := [0x1.999999999999ap-4; 0x1.999999999999ap-3]%float in
+  let s := PrimFloat.add (vdot FOps row (nth 0 (lr_coef M) [])) (nth 0 (lr_intercept M) 0%float) in
+  let e := oexp FOps (PrimFloat.opp s) in
+  let e' := oexp FOps (PrimFloat.opp (PrimFloat.opp s)) in
+  PrimFloat.is_finite s = true /\
+  (PrimFloat.is_finite e = true /\ (0 < FR s -> 0 <= FR e <= 1 - / 2 ^ 52) /\ (FR s <= 0 -> 1 <= FR e <= 2 ^ 1000)) /\
+  PrimFloat.is_finite (PrimFloat.opp s) = true /\
+  (PrimFloat.is_finite e' = true /\ (0 < FR (PrimFloat.opp s) -> 0 <= FR e' <= 1 - / 2 ^ 52) /\
+   (FR (PrimFloat.opp s) <= 0 -> 1 <= FR e' <= 2 ^ 1000)).
+Proof. split; [exact recip_sharp | exact ex_exp_side_ok]. Qed.
